@@ -71,6 +71,7 @@ BUILTIN_EXC = {
     "UnicodeDecodeError": "ValueError",
     "JSONDecodeError": "ValueError",
     "NetworkXError": "Exception",
+    "GeneratorExit": "BaseException",
     "NameError": "Exception",
     "UnboundLocalError": "NameError",
     "Warning": "Exception",
@@ -102,6 +103,10 @@ def _join_types(tys):
     return TOpt(base) if has_none else base
 
 
+class BudgetExhausted(OutsideSubset):
+    pass
+
+
 class Outcome:
     __slots__ = ("kind", "value")
 
@@ -127,7 +132,8 @@ class Obligation:
 
 
 class LoopSpec:
-    def __init__(self, inv=None, modifies=None, ghost=None, unroll=None):
+    def __init__(self, inv=None, modifies=None, ghost=None, unroll=None, allocates=False):
+        self.allocates = allocates
         self.inv = inv or {}  # name -> spec string
         self.modifies = modifies or []  # heap locations "expr.field" havocked by the loop
         self.ghost = ghost or {}
@@ -157,6 +163,8 @@ class Engine:
         self.loop_ordinals = {}
         self.feas_cache = {}
         self._quant_cache = {}
+        self.deadline = None
+        self.yield_handlers = []
         self.spec_ctx = []
         self.spec_depth = 0
         self.spec_funcs = {}
@@ -182,7 +190,7 @@ class Engine:
         fid = f.get_id()
         r = c.get(fid)
         if r is not None:
-            return r
+            return r[0]
         todo = [f]
         seen = set()
         r = False
@@ -193,10 +201,13 @@ class Engine:
                 continue
             seen.add(tid)
             if z3.is_quantifier(t):
+                if t.is_lambda():
+                    todo.append(t.body())
+                    continue
                 r = True
                 break
             todo.extend(t.children())
-        c[fid] = r
+        c[fid] = (r, f)  # keep f alive: z3 recycles ast ids of collected terms
         return r
 
     def feasible(self, st, full=False):
@@ -210,9 +221,9 @@ class Engine:
             s = z3.Solver()
             s.set("timeout", self.feas_timeout)
             s.add(*hyps)
-            r = s.check() != z3.unsat
+            r = (s.check() != z3.unsat, list(hyps))  # keep the terms alive: z3 recycles ast ids
             self.feas_cache[key] = r
-        return r
+        return r[0]
 
     def entails(self, st, f):
         if z3.is_true(f):
@@ -345,7 +356,10 @@ class Engine:
         return st.with_heap(field, z3.Store(self.heap_arr(st, field), o, b))
 
     def oblige(self, st, goal, name, **meta):
-        self.obligs.append(Obligation(name, st.hyps, goal, meta))
+        ob = Obligation(name, st.hyps, goal, meta)
+        ob.nfacts = len(st.facts)
+        ob.qfacts = [i for i, f in enumerate(st.facts) if self.has_quant(f)]
+        self.obligs.append(ob)
 
     def fresh_like(self, sv, name="h"):
         k = sv.kind
@@ -373,9 +387,14 @@ class Engine:
             )
         return sv
 
-    def fresh_of_type(self, ty, name="x", st=None):
-        """(facts, SV) for an arbitrary well-typed value of static type ty"""
+    def fresh_of_type(self, ty, name="x", st=None, alive=True):
+        """(facts, SV) for an arbitrary well-typed value of static type ty (alive: allocated in the initial state)"""
         f = Facts()
+        if not alive:
+            f0, sv = self.fresh_of_type(ty, name, st, True)
+            al = self.alive_term()
+            f.items.extend(x for x in f0.items if not (z3.is_app(x) and x.decl().kind() == z3.Z3_OP_SELECT and x.arg(0).eq(al)))
+            return f, sv
         ty = parse_type(ty)
         if ty == TInt:
             return f, sv_int(S.fresh(name, S.Int))
@@ -613,26 +632,49 @@ class Engine:
         head, rest = stmts[0], stmts[1:]
         for st1, out in self.exec_stmt(head, st):
             if out.kind == "normal":
-                self.stable_check(st1, head)
+                st1 = self.after_statement(st, st1, head)
                 yield from self.exec_block(rest, st1)
             else:
+                if out.kind in ("return", "raise"):
+                    self.after_statement(st, st1, head, normal=False)
                 yield st1, out
 
-    def stable_check(self, st, stmt):
-        """rely/guarantee frame: clauses of the contract under verification that must hold after every statement"""
+    SIMPLE_STMTS = (ast.Assign, ast.AugAssign, ast.AnnAssign, ast.Expr, ast.Return, ast.Raise, ast.Delete, ast.Assert)
+
+    def after_statement(self, before, after, stmt, normal=True):
+        """Rely/guarantee at statement granularity for the function under verification:
+        GUARANTEE  every `stable` clause holds across this statement (prev() is the state just before it);
+        RELY       then other threads interfere: the `interfere` locations are havocked, the `rely` clauses assumed."""
         c = self.current_contract
-        if c is None or not c.stable or self.verifying is None or self.spec_ctx or isinstance(stmt, (ast.Expr,)) and isinstance(stmt.value, ast.Constant):
-            return
-        if st.frame.fq != self.verifying:
-            # inside an inlined callee: evaluate in the outer function's vocabulary
-            return
-        from .spec import spec_bool
+        if c is None or not (c.stable or c.interfere) or self.verifying is None or self.spec_ctx:
+            return after
+        if after.frame.fq != self.verifying or not isinstance(stmt, self.SIMPLE_STMTS):
+            return after
+        if isinstance(stmt, ast.Expr) and isinstance(stmt.value, ast.Constant):
+            return after
+        from .spec import spec_bool, spec_value
 
         for name, text in c.stable.items():
-            g, stg = spec_bool(self, text, st)
-            self.oblige(stg, g, f"{self.verifying}:stable.{name}:after-line{stmt.lineno}:{len(self.obligs)}", kind="stable", func=self.verifying, clause=f"stable.{name}", props=c.props_of(f"stable.{name}"))
+            g, stg = spec_bool(self, text, after, prev=before)
+            self.oblige(stg, g, f"{self.verifying}:stable.{name}:line{stmt.lineno}:{len(self.obligs)}", kind="stable", func=self.verifying, clause=f"stable.{name}", props=c.props_of(f"stable.{name}"))
+        if not normal or not c.interfere:
+            return after
+        st2 = after
+        for loc in c.interfere:
+            expr, fld = loc.rsplit(".", 1)
+            o = spec_value(self, expr, after)
+            st2 = st2.with_heap(fld, z3.Store(self.heap_arr(st2, fld), o.t, S.fresh("interf_" + fld, V)))
+        for name, text in c.rely.items():
+            g, st2 = spec_bool(self, text, st2, prev=after)
+            st2 = st2.assume(g)
+        return st2
 
     def exec_stmt(self, n, st):
+        if self.deadline is not None:
+            import time as _t
+
+            if _t.time() > self.deadline:
+                raise BudgetExhausted("symbolic-execution time budget exhausted")
         m = getattr(self, "x_" + type(n).__name__, None)
         if m is None:
             raise OutsideSubset(f"statement {type(n).__name__} at line {n.lineno}")
@@ -860,6 +902,9 @@ class Engine:
             if isinstance(mgr, Raised):
                 yield st1, Outcome("raise", mgr)
                 continue
+            if mgr.kind == "gencm":
+                yield from self._with_gencm(n, idx, st1, mgr, item)
+                continue
             for st2, entered in self.call_method(st1, mgr, "__enter__", [], {}, item.context_expr):
                 if isinstance(entered, Raised):
                     yield st2, Outcome("raise", entered)
@@ -888,6 +933,67 @@ class Engine:
                         else:
                             for st5, r in self.call_method(st4, mgr, "__exit__", [SV_NONE, SV_NONE, SV_NONE], {}, item.context_expr):
                                 yield (st5, Outcome("raise", r)) if isinstance(r, Raised) else (st5, out)
+
+    def _with_gencm(self, n, idx, st, mgr, item):
+        """`with f(...) as x:` where f is a @contextmanager generator function: the generator body is executed from its
+        real source; at its `yield` the with-body runs (exceptions of the body are raised AT the yield, so the
+        generator's own try/finally/except decide whether the code after the yield runs)."""
+        fi, genv = mgr.t
+        key = S.fresh_name("cm")
+        caller_frame, caller_depth = st.frame, st.depth
+        handlers_outside = list(self.yield_handlers)
+
+        def on_yield(st_g, val):
+            if st_g.ghost.get("cm_env:" + key) is not None:
+                raise OutsideSubset("generator-based context manager yields twice")
+            gen_env, gen_frame, gen_depth = st_g.env, st_g.frame, st_g.depth
+            st_c = st_g.copy(env=st.env, frame=caller_frame, depth=caller_depth)
+            saved = self.yield_handlers
+            self.yield_handlers = list(handlers_outside)
+            try:
+                if item.optional_vars is not None:
+                    bound = list(self.assign_to(item.optional_vars, val, st_c))
+                else:
+                    bound = [(st_c, None)]
+                results = []
+                for st_b, e in bound:
+                    if isinstance(e, Raised):
+                        results.append((st_b, Outcome("raise", e)))
+                    else:
+                        results.extend(self._with_items(n, idx + 1, st_b))
+            finally:
+                self.yield_handlers = saved
+            for st_b, out in results:
+                back = st_b.copy(env=gen_env, frame=gen_frame, depth=gen_depth).with_ghost("cm_env:" + key, st_b.env)
+                if out.kind == "normal":
+                    yield back, SV_NONE
+                elif out.kind == "raise":
+                    yield back, out.value
+                else:
+                    yield back.with_ghost("cm_pending:" + key, out), Raised("GeneratorExit", where="generator closed")
+
+        frame = Frame(fi.module, fi, fi.cls, fi.fq)
+        st_g0 = st.copy(env=dict(genv), frame=frame, depth=st.depth + 1)
+        self.yield_handlers.append(on_yield)
+        try:
+            finished = list(self.exec_block(fi.node.body, st_g0))
+        finally:
+            self.yield_handlers.pop()
+        for st_e, out in finished:
+            cenv = st_e.ghost.get("cm_env:" + key)
+            pending = st_e.ghost.get("cm_pending:" + key)
+            st_back = st_e.copy(env=cenv if cenv is not None else st.env, frame=caller_frame, depth=caller_depth)
+            if cenv is None and out.kind != "raise":
+                yield st_back, Outcome("raise", Raised("RuntimeError", where="generator didn't yield"))
+            elif out.kind in ("normal", "return"):
+                yield st_back, (pending if pending is not None else NORMAL)
+            elif out.kind == "raise":
+                if out.value.cls == "GeneratorExit" and pending is not None:
+                    yield st_back, pending
+                else:
+                    yield st_back, out
+            else:
+                raise OutsideSubset("break/continue escaping a generator body")
 
     # ---- loops ---------------------------------------------------------------------------------
     def loop_ordinal(self, n, st):
@@ -1128,7 +1234,7 @@ class Engine:
             return
         sv = self.lookup_global(n.id, st)
         if sv is None:
-            raise OutsideSubset(f"unresolved name {n.id} in {st.frame.module.name}")
+            raise OutsideSubset(f"unresolved name {n.id} in {st.frame.module.name} (line {n.lineno}; locals: {sorted(st.env)})")
         yield st, sv
 
     def lookup_global(self, name, st):
@@ -1399,6 +1505,18 @@ class Engine:
                 yield from self._dyn_str_obj(st1, v, [head])
             else:
                 yield from self._dyn_str_obj(st1, v, rest)
+
+    def e_Yield(self, n, st):
+        if not self.yield_handlers:
+            raise OutsideSubset("yield outside a modelled generator-based context manager")
+        if n.value is None:
+            yield from self.yield_handlers[-1](st, SV_NONE)
+            return
+        for st1, v in self.eval(n.value, st):
+            if isinstance(v, Raised):
+                yield st1, v
+            else:
+                yield from self.yield_handlers[-1](st1, v)
 
     def e_Lambda(self, n, st):
         yield st, SV("func", ("closure", n, st.env, st.frame))
